@@ -117,6 +117,10 @@ LAYOUTS = {
     # RPDOs under "rpdo_off" are configured (mapping present) but NOT valid (COB-ID bit 31 set):
     # the drive ignores frames on their ids, a master must not use them
     "E": {"rpdo_off": {1: [(0x6040, 16)]}, "rpdo": {2: [(0x6040, 16), (0x6060, 8)]}, "tpdo": {1: [(0x6041, 16)]}},
+    # the same for TPDOs: a TPDO that maps the statusword but is not valid carries nothing - the
+    # statusword travels by SDO (G) or in the valid TPDO behind it (H)
+    "G": {"rpdo": {1: [(0x6040, 16)]}, "tpdo_off": {1: [(0x6041, 16)]}, "tpdo": {}},
+    "H": {"rpdo": {1: [(0x6040, 16)]}, "tpdo_off": {1: [(0x6041, 16)]}, "tpdo": {2: [(0x6041, 16), (0x6061, 8)]}},
     "F": {"rpdo_off": {1: [(0x6040, 16)], 2: [(0x6060, 8), (0x6040, 16)]}, "rpdo": {}, "tpdo": {1: [(0x6041, 16)]}},
 }
 RPDO_BASE = [0x200, 0x300, 0x400, 0x500]
